@@ -124,6 +124,28 @@ func init() {
 		}
 		bk, err := engine.NewBook(lines)
 		if err != nil {
+			// a book handed back TOGETHER with the error (a caller may ignore the error, as cmd/bernstein does) is still a book:
+			// whatever it offers must be a legal move of the position it is filed under
+			if v := reflect.ValueOf(bk); bk != nil && !(v.Kind() == reflect.Ptr && v.IsNil()) {
+				for k, ms := range bookEntries(bk) {
+					p, turn, _, _, derr := fen.Decode(k + " 0 1")
+					if derr != nil {
+						return "MISMATCH the book handed back with the error has the key " + strings.ReplaceAll(k, " ", "_") + ", not a position"
+					}
+					legal := p.LegalMoves(turn)
+					for _, m := range ms {
+						ok := false
+						for _, l := range legal {
+							if l == m {
+								ok = true
+							}
+						}
+						if !ok {
+							return fmt.Sprintf("MISMATCH the book handed back with the error offers %v at %s, not a legal move there", m, strings.ReplaceAll(k, " ", "_"))
+						}
+					}
+				}
+			}
 			switch {
 			case strings.HasSuffix(err.Error(), " not legal"):
 				return "err:notlegal"
